@@ -55,7 +55,7 @@ func r11_1(c *Ctx, rule string) {
 			if !isR {
 				return
 			}
-			if al, isA := eng.Strip(r.Results[0]).(*ssa.Alloc); isA && strings.HasSuffix(types.TypeString(al.Type(), nil), "fsutil.hardlinkFilter") {
+			if al, isA := eng.Strip(r.Results[0]).(*ssa.Alloc); isA && strings.HasSuffix(eng.TypeStr(al.Type()), "fsutil.hardlinkFilter") {
 				f := structLitFields(al)
 				if _, isP := eng.Strip(f["fs"]).(*ssa.Parameter); isP {
 					ok = true
